@@ -90,11 +90,13 @@ func (s *Scenario) configCount() int {
 func packetize(s *Scenario) ([]*flv.Tag, *failure) {
 	rec := &recorder{}
 	var vp, ap flv.Packetizer
+	vm := s.partialMeta()
 	if s.Codec == "H265" {
-		vp = flv.NewH265Packetizer(s.videoMeta(), rec)
+		vp = flv.NewH265Packetizer(vm, rec)
 	} else {
-		vp = flv.NewH264Packetizer(s.videoMeta(), rec)
+		vp = flv.NewH264Packetizer(vm, rec)
 	}
+	s.complete(vm) // the in-band parameter sets arrive before the first frame
 	if err := vp.PacketizeSequenceHeader(); err != nil {
 		return nil, failf("packetizer-error", "video PacketizeSequenceHeader: %v", err)
 	}
@@ -128,11 +130,13 @@ func packetize(s *Scenario) ([]*flv.Tag, *failure) {
 // must come out as one tag, after metadata and configuration.
 func mux(s *Scenario) ([]*flv.Tag, byte, *failure) {
 	rec := &recorder{note: make(chan struct{}, 1)}
-	m, err := flv.NewMuxer(s.videoMeta(), s.audioMeta(), rec, xlog.L())
+	vm := s.partialMeta()
+	m, err := flv.NewMuxer(vm, s.audioMeta(), rec, xlog.L())
 	if err != nil {
 		return nil, 0, failf("muxer-error", "NewMuxer: %v", err)
 	}
 	defer m.Close()
+	s.complete(vm) // the in-band parameter sets arrive before the first frame
 	for _, f := range s.Frames {
 		if err := m.WriteFrame(s.codecFrame(f)); err != nil {
 			return nil, 0, failf("muxer-error", "WriteFrame: %v", err)
@@ -387,6 +391,9 @@ func record(s *Scenario, cs caseStats) {
 	evid.Class("layer:" + s.Layer + "/" + s.Codec + fmt.Sprintf("/audio=%v", s.Audio))
 	evid.Class("base:" + s.Base)
 	evid.Class(fmt.Sprintf("param-sets:synthetic=%v", s.Synth != nil))
+	if s.Late != "" {
+		evid.Class("late-param-sets:" + s.Late)
+	}
 	evid.ClassN("client-views", int64(cs.views))
 	for name, on := range map[string]bool{
 		"has-key-frame": cs.key, "pts!=dts": cs.ptsNeDts, "pts<dts": cs.ptsBack, "nal>64KiB": cs.big, "nal-minimal-size": cs.tiny,
@@ -445,41 +452,42 @@ func drawJoins(t *rapid.T, s *Scenario) {
 	}
 }
 
-func propLayer(layer, codecName string, audio bool) func(t *rapid.T) {
+func propLayer(layer, codecName string, audio, synth bool) func(t *rapid.T) {
 	return func(t *rapid.T) {
-		s := drawScenario(t, layer, codecName, audio)
+		s := drawScenario(t, layer, codecName, audio, &synth)
 		drawJoins(t, s)
 		verdict(t, s)
 	}
 }
 
+// eight parallel subtests per layer: codec × audio × (captured | synthetic parameter sets)
+var layerConfigs = []struct {
+	codec        string
+	audio, synth bool
+}{{"H264", false, false}, {"H264", true, false}, {"H265", false, false}, {"H265", true, false},
+	{"H264", false, true}, {"H264", true, true}, {"H265", false, true}, {"H265", true, true}}
+
 func TestPacketizers(t *testing.T) {
 	evid.Rule(ruleText)
 	evid.Assume("AAC frames carry PTS = DTS (aac_depacketizer.go always sets both to the same value); DTS >= 0; consecutive tags of one client are less than 2^31 ms apart")
-	evid.Checks(4000, 40000)
-	for _, c := range []struct {
-		codec string
-		audio bool
-	}{{"H264", false}, {"H264", true}, {"H265", false}, {"H265", true}} {
+	evid.Checks(1200, 20000)
+	for _, c := range layerConfigs {
 		c := c
-		t.Run(fmt.Sprintf("%s-audio=%v", c.codec, c.audio), func(t *testing.T) {
+		t.Run(fmt.Sprintf("%s-audio=%v-synthetic=%v", c.codec, c.audio, c.synth), func(t *testing.T) {
 			t.Parallel()
-			rapid.Check(t, propLayer("packetizer", c.codec, c.audio))
+			rapid.Check(t, propLayer("packetizer", c.codec, c.audio, c.synth))
 		})
 	}
 }
 
 func TestMuxerJoin(t *testing.T) {
 	evid.Rule(ruleText)
-	evid.Checks(3000, 30000)
-	for _, c := range []struct {
-		codec string
-		audio bool
-	}{{"H264", false}, {"H264", true}, {"H265", false}, {"H265", true}} {
+	evid.Checks(1000, 15000)
+	for _, c := range layerConfigs {
 		c := c
-		t.Run(fmt.Sprintf("%s-audio=%v", c.codec, c.audio), func(t *testing.T) {
+		t.Run(fmt.Sprintf("%s-audio=%v-synthetic=%v", c.codec, c.audio, c.synth), func(t *testing.T) {
 			t.Parallel()
-			rapid.Check(t, propLayer("muxer", c.codec, c.audio))
+			rapid.Check(t, propLayer("muxer", c.codec, c.audio, c.synth))
 		})
 	}
 }
@@ -504,6 +512,8 @@ func TestReplayFile(t *testing.T) {
 	var fl *failure
 	if s.Layer == "stream" {
 		fl, _ = runStreamScenario(&s)
+	} else if s.Layer == "rtp" {
+		fl = runRTPScenario(&s)
 	} else {
 		fl, _ = runScenario(&s)
 	}
